@@ -1,13 +1,34 @@
-"""C01 bounded stand-in: a table of small programs, one per construct / interaction the property names, with the value the
-language reference defines for each (reviewed by hand against docsite/site/content/reference; recorded in golden_c01.json).
-Evaluated through the real FileBuilder::eval_string.  Bounded: exactly the listed programs."""
+"""C01 bounded stand-ins.
+
+semantics_table: a table of small programs, one per construct / interaction the property names, with the value the language reference
+defines for each (reviewed by hand against docsite/site/content/reference; recorded in golden_c01.json).  Evaluated through the real
+FileBuilder::eval_string.  Bounded: exactly the listed programs.  Every entry added for the gap classes carries a `basis`:
+  "reference"  the value follows from reference/expressions.md (worked out by hand, then compared with the pinned tree);
+  "same value" a cast between primitive types keeps the value where the target type can hold it (int(3.0) is 3, float(2) is 2.0,
+               int("-5") is -5, str(1.5) is "1.5"): forced by the word `cast`, the reference gives no table;
+  "recorded"   the reference is silent (rounding direction of int(<fractional float>), which texts bool()/int() refuse, bool(<number>)):
+               the value of the pinned tree, recorded so that a change of behaviour is reported; reviewed for plausibility only.
+
+self_copies / self_copies_build: generated copy expressions with `self`, nested to depth 3, against the mini-UCG reference interpreter
+of bounded/c10.py (`self` = base tuple of the innermost enclosing copy; the base of a nested copy is evaluated in the enclosing copy's
+body; after a copy ends `self` is what it was before -- at top level: unbound).
+cast_values: casts over pools of ints, floats and texts against a Python oracle (see there for what is forced and what is recorded).
+closure_*: the C10 closure families (functions closing over their definition-time scope, per function VALUE), see bounded/c10.py."""
 import json
+import math
 import os
+import random
 import re
 
 import realcode as R
+from . import c10 as X
 
 HERE = os.path.dirname(os.path.abspath(__file__))
+HOW = X.HOW
+
+# Genuine defects of the real code inside these families (reported; excluded so that the stand-ins pass on HEAD).
+KNOWN = [
+]
 
 
 def norm(out):
@@ -32,7 +53,8 @@ def norm(out):
 def standin_semantics_table(tier, seed):
     gold = json.load(open(os.path.join(HERE, 'golden_c01.json')))
     res = R.driver('eval', [g['program'] for g in gold])
-    bound = '%d programs covering operators, short-circuit, select, closures, copy/self, modules, map/filter/reduce over lists/tuples/strings, format, range, casts, in/is, fail' % len(gold)
+    bound = ('%d programs covering operators, short-circuit, select, closures (several instances of one func expression), copy/self (nested), modules, map/filter/reduce over '
+             'lists/tuples/strings, format, range, casts (edge cases), in/is, fail, and programs mixing closures + self + casts' % len(gold))
     for g, (st, out) in zip(gold, res):
         ok = st == g['status'] and (st != 'OK' or norm(out) == g['value'])
         if not ok:
@@ -42,4 +64,362 @@ def standin_semantics_table(tier, seed):
     return dict(name='semantics_table', bound=bound, cases=len(gold), status='ok')
 
 
-STANDINS = [standin_semantics_table]
+# ------------------------------------------------------------------ `self` inside copy expressions
+TI = X.TI
+INTF = ['a', 'b', 'c', 'd']
+NEWF = ['n1', 'n2', 'n3', 'q', 'z2']
+
+
+class SelfGen:
+    """programs: two nested tuples (depth 3, all ints distinct), helper functions (one of which copies its argument using its own `self`),
+    then copy statements whose bodies use `self` in overridden and new fields, in lists, in function-call arguments, in the base of nested
+    copies (`self.inner{..}`, `self{..}`, another tuple`{..}`) before and after which `self` is used again, in map callbacks that copy"""
+
+    def __init__(self, rnd, typed=False):
+        self.rnd = rnd
+        self.typed = typed                            # True: only forms the type checker of `ucg build` accepts (KNOWN_TYPED)
+        self.vals = rnd.sample(range(1, 90), 40)
+        self.ty, self.env, self.stmts, self.lets = {}, {}, [], []
+        self.fresh_i = 0
+
+    def val(self):
+        return ('int', self.vals.pop())
+
+    def tuple_lit(self, depth):
+        rnd = self.rnd
+        fs = [('a', TI, self.val())]
+        for n in rnd.sample(INTF[1:], rnd.randint(1, 2)):
+            fs.append((n, TI, self.val()))
+        if rnd.random() < 0.4:
+            fs.append(('l', ('L', TI, 2), ('list', [self.val(), self.val()])))
+        if depth < 3:
+            t, a = self.tuple_lit(depth + 1)
+            fs.append(('inner', t, a))
+        rnd.shuffle(fs)
+        return ('T', tuple((n, t) for n, t, _ in fs)), ('tuple', [(n, a) for n, _, a in fs])
+
+    def bind(self, name, t, a):
+        self.ty[name] = t
+        self.env[name] = X.cev(a, self.env)
+        self.lets.append((name, a))
+        self.stmts.append('let %s = %s;' % (name, X.csrc(a)))
+
+    # every (expression, type) reachable from `root` of type t by field / index selection
+    def leaves(self, root, t):
+        out = [(root, t)]
+        if t[0] == 'T':
+            for n, ft in t[1]:
+                out += self.leaves(('fld', root, n), ft)
+        elif t[0] == 'L':
+            for i in range(t[2]):
+                out += self.leaves(('idx', root, i), t[1])
+        return out
+
+    def iexpr(self, self_t, d, loc=()):
+        rnd = self.rnd
+        selfints = [e for e, t in self.leaves(('self',), self_t) if t == TI] if self_t else []
+        selftups = [e for e, t in self.leaves(('self',), self_t) if t[0] == 'T' and dict(t[1]).get('a') == TI] if self_t else []
+        tops = [e for n, t in self.ty.items() if t[0] in 'TL' for e, lt in self.leaves(('ref', n), t) if lt == TI]
+        opts = ['lit'] + ['self'] * 6 * bool(selfints) + ['top'] * bool(tops) + ['loc'] * 2 * bool(loc)
+        if d > 0:
+            opts += ['bin'] * 2 + ['f'] * 2 + ['gz'] * 2 * bool(selftups) + ['cpz'] * 2 * bool(selftups)
+        c = rnd.choice(opts)
+        if c == 'lit':
+            return ('int', rnd.randint(1, 9))
+        if c == 'self':
+            return rnd.choice(selfints)
+        if c == 'top':
+            return rnd.choice(tops)
+        if c == 'loc':
+            return ('ref', rnd.choice(loc))
+        if c == 'bin':
+            return ('bin', rnd.choice('++-*'), self.iexpr(self_t, d - 1, loc), self.iexpr(self_t, d - 1, loc))
+        if c == 'f':
+            return ('call', ('ref', 'f'), [self.iexpr(self_t, d - 1, loc), self.iexpr(self_t, d - 1, loc)])
+        if c == 'gz':                                 # g copies its argument with a self of its own
+            return ('fld', ('call', ('ref', 'g'), [rnd.choice(selftups)]), 'z')
+        selftups = [e for e in selftups if noidx(e)]
+        base = rnd.choice(selftups)                   # a nested copy used for one of its fields: inside it self is ITS base
+        bt = dict(self.leaves(('self',), self_t))[base]
+        return ('fld', ('copy', base, [('z9', self.iexpr(bt, d - 1, loc))]), 'z9')
+
+    def copy(self, base, bt, nest, loc=()):
+        """copy expression over `base` (of tuple type bt); returns (type, ast)"""
+        rnd = self.rnd
+        fields = dict(bt[1])
+        order = [n for n, _ in bt[1]]
+        body, done = [], set()
+        for _ in range(rnd.randint(2, 4) if nest < 3 else rnd.randint(1, 2)):
+            ints = [n for n in order if fields[n] == TI and n not in done]
+            tups = [n for n in order if fields[n][0] == 'T' and n not in done]
+            lsts = [n for n in order if fields[n][0] == 'L' and n not in done]
+            news = [n for n in NEWF if n not in fields and n not in done]
+            others = [(('ref', n), t) for n, t in self.ty.items() if t[0] == 'T']
+            opts = ['ovr_int'] * 3 * bool(ints) + ['new_int'] * 3 * bool(news) + ['ovr_tup'] * 5 * bool(tups and nest < 3) + ['ovr_lst'] * bool(lsts)
+            opts += (['new_self'] * 2 + ['new_other'] * 2 * bool(others) + ['new_list'] + ['new_g'] + ['new_map']) * bool(news and nest < 3)
+            if not opts:
+                break
+            c = rnd.choice(opts)
+            if c == 'ovr_int':
+                n = rnd.choice(ints)
+                t, a = TI, self.iexpr(bt, 2, loc)
+            elif c == 'new_int':
+                n = rnd.choice(news)
+                t, a = TI, self.iexpr(bt, 2, loc)
+            elif c == 'ovr_tup':
+                n = rnd.choice(tups)
+                t, a = self.copy(('fld', ('self',), n), fields[n], nest + 1, loc)
+            elif c == 'ovr_lst':
+                n = rnd.choice(lsts)
+                t, a = fields[n], ('list', [self.iexpr(bt, 1, loc) for _ in range(fields[n][2])])
+            elif c == 'new_self':                     # a copy of self itself / of a tuple inside self, as a new field
+                n = rnd.choice(news)
+                cands = [(e, t) for e, t in self.leaves(('self',), bt) if t[0] == 'T' and noidx(e) and (not self.typed or e == ('self',))]
+                e, t0 = rnd.choice(cands)
+                t, a = self.copy(e, t0, nest + 1, loc)
+            elif c == 'new_other':                    # a copy of an unrelated tuple: inside it self is THAT tuple
+                n = rnd.choice(news)
+                e, t0 = rnd.choice(others)
+                t, a = self.copy(e, t0, nest + 1, loc)
+            elif c == 'new_list':
+                n = rnd.choice(news)
+                t, a = ('L', TI, 3), ('list', [self.iexpr(bt, 1, loc) for _ in range(3)])
+            elif c == 'new_g':
+                n = rnd.choice(news)
+                cands = [(e, t) for e, t in self.leaves(('self',), bt) if t[0] == 'T' and dict(t[1]).get('a') == TI and 'z' not in dict(t[1])]
+                if not cands:
+                    continue
+                e, t0 = rnd.choice(cands)
+                t, a = ('T', t0[1] + (('z', TI),)), ('call', ('ref', 'g'), [e])
+            else:
+                n = rnd.choice(news)
+                t = ('L', ('T', (('v', TI), ('w', TI))), 2)
+                a = ('map', ('func', ['e'], ('copy', ('ref', 'e'), [('w', ('bin', '*', ('fld', ('self',), 'v'), ('int', rnd.randint(2, 5))))])),
+                     ('list', [('tuple', [('v', self.iexpr(bt, 1, loc))]), ('tuple', [('v', self.iexpr(bt, 1, loc))])]))
+            done.add(n)
+            body.append((n, a))
+            if n not in fields:
+                order.append(n)
+            fields[n] = t
+        if not body:
+            body = [('z8', self.iexpr(bt, 1, loc))]
+            order.append('z8')
+            fields['z8'] = TI
+        return ('T', tuple((n, fields[n]) for n in order)), ('copy', base, body)
+
+    def build(self, ncopies):
+        rnd = self.rnd
+        for name in ('t', 'o'):
+            t, a = self.tuple_lit(1)
+            self.bind(name, t, a)
+            if self.typed:                            # inner tuples get names of their own
+                ti = dict(t[1])['inner']
+                self.bind(name + 'i', ti, ('fld', ('ref', name), 'inner'))
+                self.bind(name + 'ii', dict(ti[1])['inner'], ('fld', ('fld', ('ref', name), 'inner'), 'inner'))
+        self.bind('f', X.F2, ('func', ['x', 'y'], ('bin', '+', ('bin', '*', ('ref', 'x'), ('int', 10)), ('ref', 'y'))))
+        self.bind('g', ('F', (), TI), ('func', ['u'], ('copy', ('ref', 'u'), [('z', ('bin', '+', ('fld', ('self',), 'a'), ('int', 1)))])))
+        for i in range(ncopies):
+            bases = [(e, t) for n, t0 in self.ty.items() if t0[0] == 'T' for e, t in self.leaves(('ref', n), t0) if t[0] == 'T' and noidx(e) and (not self.typed or e[0] == 'ref')]
+            e, t0 = rnd.choice(bases)
+            if rnd.random() < 0.25:                  # the copy stands in a function body; the function's parameter is used next to self
+                t, a = self.copy(e, t0, 1, ('p',))
+                self.bind('k%d' % i, ('F', (), TI), ('func', ['p'], a))
+                self.bind('c%d' % i, t, ('call', ('ref', 'k%d' % i), [('int', rnd.randint(1, 9))]))
+            else:
+                t, a = self.copy(e, t0, 1)
+                self.bind('c%d' % i, t, a)
+        return self
+
+
+def noidx(e):
+    return e[0] != 'idx' and (e[0] != 'fld' or noidx(e[1]))
+
+
+def self_programs(rnd, n, typed=False):
+    out = []
+    while len(out) < n:
+        try:
+            out.append(SelfGen(rnd, typed).build(rnd.randint(2, 4)))
+        except X.TooBig:
+            pass
+    return out
+
+
+SELF_BOUND = ('%d seeded programs: two nested tuple literals (depth 3, distinct ints), 2..4 copy statements (bases: the tuples, their inner tuples, earlier copies; a quarter inside a '
+              'function body next to its parameter) whose bodies override and add int fields, lists, nested copies of self.<tuple> / self / another tuple (to depth 3, `self` used before and after '
+              'them), call f(self.x, ..), call a function that copies its argument with its own self, take one field of a nested copy, map a copying callback over tuples built from self')
+
+
+def standin_self_copies(tier, seed):
+    rnd = random.Random(seed + 501)
+    progs = self_programs(rnd, 400 if tier == 'thorough' else 80)
+    cases, meta = [], []
+    for g in progs:
+        whole = '\n'.join(g.stmts)
+        exp = dict((n, X.cshow(v)) for n, v in g.env.items())
+        cases.append(whole); meta.append(exp)
+        # after the copy ends `self` is gone: at top level, behind a copy inside one expression, inside a function called from a copy body
+        last = X.csrc(g.lets[-1][1])
+        cases.append(whole + '\nlet zz = self.a;'); meta.append(None)
+        cases.append(whole + '\nlet zz = [%s, self.a];' % (last if g.lets[-1][1][0] == 'copy' else 't{n1 = self.a}')); meta.append(None)
+        cases.append(whole + '\nlet leak = func (x) => self.a + x;\nlet zz = t{n1 = leak(1)};'); meta.append(None)
+    res = R.driver('eval', cases)
+    bound = SELF_BOUND % len(progs) + '; each program also followed by `self` at top level, behind a finished copy in the same expression, and in a function called from a copy body (build errors)'
+    for src_, exp, (st, out) in zip(cases, meta, res):
+        bad = None
+        if exp is None:
+            if st != 'ERR':
+                bad = '`self` outside the body of a copy must be a build error, observed %s %s' % (st, out[:200].replace('\n', ' '))
+        else:
+            got = X.cfields(out) if st == 'OK' else None
+            if got is None:
+                bad = 'must build, observed %s %s' % (st, out[:200].replace('\n', ' '))
+            elif got != exp:
+                bad = '; '.join('%s = %s, expected %s' % (n, got.get(n, '(unbound)'), exp.get(n, '(unbound)')) for n in sorted(set(got) | set(exp)) if got.get(n) != exp.get(n))
+        if bad:
+            return dict(name='self_copies', bound=bound, cases=len(cases), status='violation', detail='`%s`: %s' % (src_.replace('\n', ' '), bad),
+                        input=dict(source=src_, expected='build error' if exp is None else json.dumps(exp, sort_keys=True), observed='%s %s' % (st, out[:800]), how=HOW['eval']))
+    return dict(name='self_copies', bound=bound, cases=len(cases), status='ok')
+
+
+def standin_self_copies_build(tier, seed):
+    rnd = random.Random(seed + 1501)
+    progs = self_programs(rnd, 300 if tier == 'thorough' else 60, typed=True)
+    cases = []
+    for g in progs:
+        lines, tail = [], []
+        for i, ((n, _), s) in enumerate(zip(g.lets, g.stmts)):
+            lines.append(s)
+            leaves = [(p[len(n):], v) for p, v in X.pins(n, g.env[n])]
+            if leaves:
+                # one pin per binding, through a format expression (its embedded selectors are not subject to the type checker, see KNOWN_TYPED)
+                chk = 'select (("%s" %% %s) == "%s") => {true = 1};' % (':'.join('@{item%s}' % p for p, _ in leaves), n, ':'.join(fmtval(v) for _, v in leaves))
+                lines.append('let chk%d = %s' % (2 * i, chk))
+                tail.append('let chk%d = %s' % (2 * i + 1, chk))
+        cases.append('\n'.join(lines + tail))
+    res = R.driver('buildfile', cases)
+    bound = SELF_BOUND % len(progs) + '; every int / int list inside every bound tuple pinned to the reference value right after its binding and again at the end of the file'
+    for src_, (st, out) in zip(cases, res):
+        if st != 'OK':
+            return dict(name='self_copies_build', bound=bound, cases=len(cases), status='violation',
+                        detail='a valid program whose bindings are pinned to their reference values does not build: %s %s' % (st, out[:300].replace('\n', ' ')),
+                        input=dict(source=src_, expected='builds (every chkN select finds its `true` case)', observed='%s %s' % (st, out[:600]), how=HOW['buildfile']))
+    return dict(name='self_copies_build', bound=bound, cases=len(cases), status='ok')
+
+
+# ------------------------------------------------------------------ casts
+I64_MAX = 2 ** 63 - 1
+CAST_INTS = [0, 1, -1, 2, 7, -7, 10, 42, -42, 255, 1000, -1000, 2 ** 31 - 1, 2 ** 31, -(2 ** 31), 2 ** 32 + 1, 10 ** 15, -(10 ** 15), 2 ** 53, -(2 ** 53),
+             2 ** 53 + 1, 10 ** 18, -(10 ** 18), I64_MAX, -I64_MAX, -I64_MAX - 1]
+CAST_WHOLE = ['0.0', '1.0', '2.0', '3.0', '4.0', '10.0', '255.0', '1000000.0', '4294967296.0', '9007199254740992.0', '1000000000000000000.0']
+CAST_FRAC = ['0.5', '1.5', '2.5', '3.5', '4.5', '0.25', '0.75', '0.1', '0.9', '0.999', '0.001', '1.001', '1.999', '2.999', '7.000001', '99.99', '123456.789', '1000000000.5',
+             '4503599627370495.5', '0.49999999999999994', '0.5000000000000001']
+
+
+def ilit(i):
+    return str(i) if i >= 0 else ('(0 - %d)' % -i if i != -I64_MAX - 1 else '(0 - %d - 1)' % I64_MAX)
+
+
+def cast_cases():
+    """(expression, expected normalised Display, basis)"""
+    cs = []
+    for i in CAST_INTS:
+        L = ilit(i)
+        cs.append(('int(%s)' % L, str(i), 'same value'))
+        cs.append(('str(%s)' % L, '"%d"' % i, 'same value'))
+        cs.append(('int("%d")' % i, str(i), 'same value'))                       # signed text
+        cs.append(('int(str(%s))' % L, str(i), 'same value'))
+        cs.append(('str(int("%d"))' % i, '"%d"' % i, 'same value'))
+        if abs(i) <= 2 ** 53:                                                    # exactly representable: the float has the same value
+            F = '%d.0' % i if i >= 0 else '(0.0 - %d.0)' % -i
+            cs.append(('float(%s) == %s' % (L, F), 'true', 'same value'))
+            cs.append(('float(%s) is "float"' % L, 'true', 'same value'))
+            cs.append(('float(%s) is "int"' % L, 'false', 'same value'))
+            cs.append(('int(float(%s))' % L, str(i), 'same value'))
+            cs.append(('int(%s)' % F, str(i), 'same value'))
+            cs.append(('int(%s) is "int"' % F, 'true', 'same value'))
+            cs.append(('float("%d") == %s' % (i, F), 'true', 'same value'))
+            cs.append(('float(str(%s)) == %s' % (L, F), 'true', 'same value'))
+    for w in CAST_WHOLE:
+        n = int(float(w))
+        for sign in (1, -1):
+            F = w if sign > 0 else '(0.0 - %s)' % w
+            cs.append(('int(%s)' % F, str(sign * n), 'same value'))
+            cs.append(('float(%s) == %s' % (F, F), 'true', 'same value'))
+            cs.append(('float(int(%s)) == %s' % (F, F), 'true', 'same value'))
+    for x in CAST_FRAC:
+        v = float(x)
+        for sign in (1, -1):
+            F = x if sign > 0 else '(0.0 - %s)' % x
+            T = x if sign > 0 else '-' + x
+            # the reference does not say which way int(<fractional float>) rounds; the pinned tree drops the fraction (toward zero, like the integer division
+            # `(0 - 7) / 2 == -3` of the table): recorded
+            cs.append(('int(%s)' % F, str(sign * math.trunc(v)), 'recorded'))
+            cs.append(('int(%s) is "int"' % F, 'true', 'same value'))
+            cs.append(('float(%s) == %s' % (F, F), 'true', 'same value'))
+            cs.append(('float("%s") == %s' % (T, F), 'true', 'same value'))
+            cs.append(('float(str(%s)) == %s' % (F, F), 'true', 'same value'))       # whatever the text looks like, it denotes the same number
+            cs.append(('str(%s) is "str"' % F, 'true', 'same value'))
+            cs.append(('int(%s) + int(%s)' % (F, x if sign < 0 else '(0.0 - %s)' % x), '0', 'recorded'))   # symmetric
+            cs.append(('float(int(%s)) == %s' % (F, F), 'false', 'same value'))      # the fraction cannot survive an int
+    for b in ('true', 'false'):
+        cs.append(('bool("%s")' % b, b, 'same value'))
+        cs.append(('str(%s)' % b, '"%s"' % b, 'same value'))
+        cs.append(('bool(%s)' % b, b, 'same value'))
+        cs.append(('bool(str(%s))' % b, b, 'same value'))
+        cs.append(('str(bool("%s"))' % b, '"%s"' % b, 'same value'))
+        cs.append(('bool("%s") is "bool"' % b, 'true', 'same value'))
+    for s in ('', 'a', 'a b', '12', '1.5', 'true', 'NULL'):
+        cs.append(('str("%s")' % s, '"%s"' % s, 'same value'))
+    # not castable: a build error (reference: "a failed cast is a compile error", "do not resolve to a primitive type that is castable")
+    for e in ['int("abc")', 'int("")', 'int("12abc")', 'int("1 2")', 'float("abc")', 'float("")', 'float("1.5.2")', 'bool("abc")', 'bool("")', 'int([1])', 'int({a = 1})', 'float([1.0])',
+              'float({a = 1})', 'str([1])', 'str({a = 1})', 'bool([true])', 'bool({a = true})', 'int(func (x) => x)', 'str(func (x) => x)', 'int("9223372036854775808")',
+              'int("-9223372036854775809")', 'int("99999999999999999999999")']:
+        cs.append((e, None, 'reference'))
+    # the pinned tree is "very conservative" here; the reference names no table: recorded
+    for e in ['int("1.5")', 'int("2.0")', 'int(true)', 'int(false)', 'float(true)', 'bool(1)', 'bool(0)', 'bool(1.0)', 'bool("yes")', 'bool("True")', 'bool("1")', 'bool("0")', 'bool(NULL)', 'int(NULL)', 'float(NULL)']:
+        cs.append((e, None, 'recorded'))
+    return cs
+
+
+def standin_cast_values(tier, seed):
+    cs = cast_cases()
+    # each expression on its own, inside a function body, inside a map callback and through the type checker
+    progs = ['let x = %s;' % e for e, _, _ in cs]
+    res = R.driver('eval', progs)
+    wrapped = ['let f = func (u) => %s;\nlet x = f(0);' % e for e, _, _ in cs]
+    res_w = R.driver('eval', wrapped)
+    res_b = R.driver('buildfile', ['let x = %s;%s' % (e, '' if v is None else '\nlet chk = select (x == %s) => {true = 1};' % unshow(v)) for e, v, _ in cs])
+    n_rec = len([1 for _, _, b in cs if b == 'recorded'])
+    bound = ('%d cast expressions x {top level, inside a function body, `ucg build` with the value pinned}: int / str / float round trips over %d ints (signed texts, |i| up to 2^63), %d whole and %d fractional '
+             'floats of both signs (.5 cases, just below / above .5, large magnitudes), bool / str of booleans, texts and values with no cast (build errors); %d of them record the pinned tree where the '
+             'reference is silent (int(<fractional float>) drops the fraction toward zero; refused texts / operands)' % (len(cs), len(CAST_INTS), len(CAST_WHOLE), len(CAST_FRAC), n_rec))
+    for (e, v, basis), p, w, (st, out), (stw, outw), (stb, outb) in zip(cs, progs, wrapped, res, res_w, res_b):
+        for prog, how, s, o in ((p, HOW['eval'], st, out), (w, HOW['eval'], stw, outw)):
+            got = (X.cfields(o) or {}).get('x') if s == 'OK' else None
+            if (v is None and s != 'ERR') or (v is not None and got != v):
+                return dict(name='cast_values', bound=bound, cases=3 * len(cs), status='violation',
+                            detail='`%s` evaluates to %s %s; expected %s (%s)' % (prog.replace('\n', ' '), s, got if s == 'OK' else o[:160].replace('\n', ' '), v or 'a build error', basis),
+                            input=dict(source=prog, expected=v or 'build error', observed='%s %s' % (s, o[:300]), how=how, basis=basis))
+        if (v is None) != (stb != 'OK'):
+            prog = 'let x = %s;%s' % (e, '' if v is None else '\nlet chk = select (x == %s) => {true = 1};' % unshow(v))
+            return dict(name='cast_values', bound=bound, cases=3 * len(cs), status='violation',
+                        detail='`%s`: expected %s (%s), observed %s %s' % (prog.replace('\n', ' '), 'a build that finds the pinned value' if v else 'a build error', basis, stb, outb[:200].replace('\n', ' ')),
+                        input=dict(source=prog, expected=v or 'build error', observed='%s %s' % (stb, outb[:300]), how=HOW['buildfile'], basis=basis))
+    return dict(name='cast_values', bound=bound, cases=3 * len(cs), status='ok')
+
+
+def fmtval(src_):
+    """how a format expression renders the int / int list whose UCG source is src_ (ints: their decimal text; lists: elements separated by `, `)"""
+    return re.sub(r'\(0 - (\d+)\)', r'-\1', src_)
+
+
+def unshow(v):
+    """UCG source of a normalised Display value (ints, strings, booleans)"""
+    if v == str(-I64_MAX - 1):
+        return ilit(-I64_MAX - 1)
+    return '(0 - %s)' % v[1:] if re.match(r'-\d+$', v) else v
+
+
+STANDINS = [standin_semantics_table, standin_self_copies, standin_self_copies_build, standin_cast_values,
+            X.standin_closure_cases_eval, X.standin_closure_prefixes]
